@@ -44,11 +44,19 @@ impl Delay {
 	}
 }
 
+/// The length of the delay line: the whole frames in `delay_time` (at least one).
+///
+/// Integer arithmetic: `(delay_time.as_secs_f64() * sample_rate as f64) as usize` rounds twice
+/// and comes out one frame short for some delay times that are a whole number of frames
+/// (35.75 ms at 48 kHz gave 1715 frames instead of 1716).
+fn delay_time_frames(delay_time: Duration, sample_rate: u32) -> usize {
+	let frames = delay_time.as_nanos() * sample_rate as u128 / 1_000_000_000;
+	usize::try_from(frames).unwrap_or(usize::MAX).max(1)
+}
+
 impl Effect for Delay {
 	fn init(&mut self, sample_rate: u32, internal_buffer_size: usize) {
-		// the delay line needs at least one frame
-		let delay_time_frames =
-			((self.delay_time.as_secs_f64() * sample_rate as f64) as usize).max(1);
+		let delay_time_frames = delay_time_frames(self.delay_time, sample_rate);
 		self.buffer = vec![Frame::ZERO; delay_time_frames];
 		self.temp_buffer = vec![Frame::ZERO; internal_buffer_size];
 		for effect in &mut self.feedback_effects {
@@ -57,9 +65,7 @@ impl Effect for Delay {
 	}
 
 	fn on_change_sample_rate(&mut self, sample_rate: u32) {
-		// the delay line needs at least one frame
-		let delay_time_frames =
-			((self.delay_time.as_secs_f64() * sample_rate as f64) as usize).max(1);
+		let delay_time_frames = delay_time_frames(self.delay_time, sample_rate);
 		self.buffer = vec![Frame::ZERO; delay_time_frames];
 		for effect in &mut self.feedback_effects {
 			effect.on_change_sample_rate(sample_rate);
